@@ -43,5 +43,8 @@ Dry-runs on a scratch copy (VERIF_REPO=/var/tmp/c19dev ./check C19 quick, findin
      cover it): C19_facts_ok (maxLookahead) and the correspondence (`parse f(a==1)`) break -> no-failing-input-found
  M4  lexer.go: "Unexpected indent" check disabled                              RED  correspondence broken (104 token streams differ),
      property itself still holds -> no-failing-input-found
+ M11 grammar_parse.go parseReturn: an extra p.l.Next() after p.next(EOL)       RED  no crash reachable (the parser still stops at the next EOF):
+     C19_facts_ok (parserCalls) and the correspondence break -> no-failing-input-found
+ M12 harmless: parseCall's local `names` -> `seen`, parseStatement's `tok` -> `first`   GREEN (exit 0)
  M7  harmless: local `next` renamed to `ch` throughout nextToken, `l.line++` / `l.col = 0` swapped   GREEN (exit 0, 0 disagreements)
 """
